@@ -775,6 +775,13 @@ impl Session {
         &&& f.body->Flow_0.outgoing_window == self.outgoing_window
     }
 
+//@@ fn file=fe2o3-amqp/src/session/mod.rs impl=`impl endpoint::Session for Session` name=on_outgoing_attach
+//@@ spec
+    ensures
+        r is Ok && r->Ok_0.channel == old(self).outgoing_channel.0 && r->Ok_0.body == SessionFrameBody::Attach(attach),   // [C11.channel.attach-on-its-sessions-channel] [C13.link.attach-frame-unchanged] a link's attach goes out unchanged on the channel of the session the link belongs to
+        *final(self) == *old(self),
+//@@ end
+
 //@@ fn file=fe2o3-amqp/src/session/mod.rs impl=`impl endpoint::Session for Session` name=on_outgoing_flow
 //@@ spec
     ensures
